@@ -54,9 +54,23 @@ small spaces only. -/
 def Leaf.Assumed (cj : K → K) (I : K) (l : Leaf K) : Prop :=
   ∀ t', l.adj cj I = some t' → Pair cj l.needRe l.dom l.ran (l.run cj I) (t'.run cj I)
 
-/-- Conditions under which the coded leaf adjoint is claimed correct.  They describe real
-ODL configurations (spaces as the constructors build them); the configurations they exclude
-are the recorded open findings (e.g. ComponentProjection on weighted product spaces). -/
+/-- Conditions under which the coded leaf adjoint is PROVED correct.  What they exclude
+(constructible in ODL, NOT covered by the theorems; decided by the matrix oracle only):
+* `multiply`: domain ≠ range (MultiplyOperator between two differently weighted spaces:
+  recorded open finding F61 — the adjoint ignores the weight ratio);
+* `matrix`: only 1-d spaces whose weighting the code can see (`.const` / `.array`, non-zero and
+  real) and the same field on both sides (a complex matrix on a real domain has no adjoint:
+  the code raises); n-d tensors with `axis`, sparse matrices, array weightings of n-d spaces
+  and custom inner products (bare transpose: open finding F7) are outside the model;
+* `multField` / `inner` / `realPart` / `imagPart` / `cembed` / `proj`: real weights (every ODL
+  weighting is real); `realPart`/`imagPart`/`cembed`: range = `real_space` resp.
+  `complex_space` of the domain; `imagPart`/`cembed` need `I² = -1`, `conj I = -I`, `2 ≠ 0`;
+* `pwInner(Adj)`: `V` is the power space of `X` with product weights `v ≠ 0`, real weights;
+* `sampling` / `wsum` / `flatten(Inv)`: 1-d (flat C-order) view, unweighted `rn(N)` on the flat
+  side, non-zero real weights on the other, indices inside the space (F order and n-d index
+  arrays are outside the model);
+* `proj(Adj)`: distinct indices (a repeated index is outside), non-zero real weights;
+* `opaque`: the contract itself is the hypothesis (operators without an executable model). -/
 def Leaf.WT (cj : K → K) (I : K) : Leaf K → Prop
   | .opaque re d r f g => Pair cj (re = true) d r f g
   | .nonlin _ _ _ => True
@@ -107,14 +121,25 @@ def Impl.needRe : Impl K → Prop
   | .pnil _ _ _ => False
   | .pcons _ _ a rest => a.needRe ∨ rest.needRe
 
-/-- Well-formed expression trees: what the ODL constructors check (matching spaces, scalars
-in the field of the space, vectors in the space) plus the leaf conditions. -/
+/-- Well-formed expression trees.  Each clause is what the ODL constructor of the class checks
+(`OperatorSum`: equal domains and ranges; `OperatorComp`: `right.range == left.domain`;
+Left/RightScalarMult: `scalar in range.field` resp. `domain.field`; vector multiples: the
+vector is an element of the range resp. domain; FunctionalLeftVectorMult: the functional maps
+into the field of the vector's space), plus:
+* `lscal`: `Im(conj s) = 0 → conj s = s`, a fact about the scalar type (true for `cj = id` and
+  for ℂ), needed because the code branches on `complex(conj s).imag == 0`;
+* `flvec`: real weights on the vector's space (every ODL weighting is real);
+* `pcons`: the block `a` acts between COMPONENTS of the product spaces, i.e. the product spaces
+  are UNWEIGHTED (weight 1 per block) — `ProductSpaceOperator` raises for weighted product
+  spaces, so block operators on weighted product spaces are outside the theorems;
+* the leaf conditions `Leaf.WT`. -/
 def Impl.WT (cj : K → K) (I : K) : Impl K → Prop
   | .leaf l => l.WT cj I
   | .sum a b => a.WT cj I ∧ b.WT cj I ∧ b.dom = a.dom ∧ b.ran = a.ran
   | .comp a b => a.WT cj I ∧ b.WT cj I ∧ b.ran = a.dom
-  | .lscal a s => a.WT cj I ∧ ((a.needRe ∨ a.ran.real = true ∨ a.dom.real = true) → cj s = s)
-  | .rscal a s => a.WT cj I ∧ ((a.needRe ∨ a.ran.real = true ∨ a.dom.real = true) → cj s = s)
+  | .lscal a s => a.WT cj I ∧ (a.ran.real = true → cj s = s) ∧
+      (imK cj I (cj s) = 0 → cj s = s)
+  | .rscal a s => a.WT cj I ∧ (a.dom.real = true → cj s = s)
   | .lvec a v => a.WT cj I ∧ mem cj a.ran v
   | .rvec a v => a.WT cj I ∧ mem cj a.dom v
   | .flvec f V F v => f.WT cj I ∧ f.ran = F ∧ F = fieldSpace V.real ∧ mem cj V v ∧ realW cj V
